@@ -290,6 +290,8 @@ func c18R1(p *core.Prog, r *core.Report) {
 
 // strEval evaluates a string-building expression to representative instances: list elements become
 // "a", strings.Join(list, sep) becomes "a"+sep+"b"+sep+"c".
+var strEvalProg *core.Prog
+
 func strEval(v ssa.Value, depth int) ([]string, bool) {
 	if depth > 12 || v == nil {
 		return nil, false
@@ -298,6 +300,31 @@ func strEval(v ssa.Value, depth int) ([]string, bool) {
 	case *ssa.Const:
 		s, ok := core.ConstString(x)
 		return []string{s}, ok
+	case *ssa.Parameter:
+		// a helper that is given the pattern or the filter: evaluated at every call site
+		fn := x.Parent()
+		if strEvalProg == nil || fn == nil {
+			return nil, false
+		}
+		idx := -1
+		for i, pr := range fn.Params {
+			if pr == x {
+				idx = i
+			}
+		}
+		var out []string
+		for _, st := range strEvalProg.Callers(fn) {
+			c, ok := st.Site.(ssa.CallInstruction)
+			if !ok || core.CalleeFn(c) != fn || idx < 0 || idx >= len(c.Common().Args) {
+				return nil, false
+			}
+			s, ok := strEval(c.Common().Args[idx], depth+1)
+			if !ok {
+				return nil, false
+			}
+			out = append(out, s...)
+		}
+		return out, len(out) > 0
 	case *ssa.BinOp:
 		if x.Op != token.ADD {
 			return nil, false
@@ -453,6 +480,7 @@ func c18R2(p *core.Prog, r *core.Report) {
 	}
 	n := 0
 	lab := map[string]labeler{}
+	strEvalProg = p
 	for _, f := range sortedFuncs(scope) {
 		if pk := core.FuncPkg(f); pk == nil || pk.Path() != modPath("cmd/regsync") {
 			continue
